@@ -139,7 +139,9 @@ CLAIMS = {
              "reports 254 and accepts nothing destination-specific; every frame the claim machinery originates is an address-claimed frame from the announced / held / null address.",
         note="Tie: lock-step correspondence of the real ControllerApplication (fake ECU recording calls) with the model on random histories; "
              "oracle: real CA on a real ECU through claim histories, every entry point and service (Dm1, Dm11, Dm22, DM14/16), loss judged "
-             "from the bus. Handler atomicity (histories, not thread schedules).",
+             "from the bus. Handler atomicity (histories, not thread schedules). OPEN KNOWN FINDING D30 (known_findings.json): a broadcast "
+             "transfer that is running when the address is lost goes on from the lost address — reproduced and printed as KNOWN-FINDING on "
+             "every run; the theorems speak about the CA's entry points, not about sessions already handed to the data link layer.",
         technique="Lean 4 invariant by induction over histories + guard theorems; lock-step correspondence; history oracle",
         design="§8 C13"),
     'C14': dict(
